@@ -11,3 +11,4 @@ import PyIkev2.Props.C11
 #print axioms PyIkev2.Props.C11.c11_retry_only_within_offer
 #print axioms PyIkev2.Props.C11.c11_concrete_responder_suite_within_both
 #print axioms PyIkev2.Props.C11.c11_concrete_initiator_suite_from_offer
+#print axioms PyIkev2.Props.C11.c11_concrete_both_ends_hold_the_same_suite
